@@ -728,6 +728,90 @@ theorem new_vertex_darts (m m' : Map Val) (e : Nat) (fh sh : List Nat) (hwf : WF
           rw [e1, ha] at hp
           exact hp
 
+/-- **C14 (c), the new darts lie in pairwise distinct vertices**: after a successful `insert_vertices_on_edge` the
+    vertex identifiers of the first-half darts, computed on the resulting map, are pairwise distinct (the vertex of
+    `fh[t]` is `{fh[t]}` on a one-dart edge and `{fh[t], sh[k-1-t]}` on a two-dart edge) — the hypothesis of
+    `C14_new_vertex_position` -/
+theorem C14_new_darts_distinct_vertices (m m' : Map Val) (e : Nat) (nds : List Nat) (ts : List Rat)
+    (hwf : WF 3 m) (he : C01.InUse m e)
+    (hlive : ∀ d ∈ nds, m.unused d = false)
+    (hfhnd : (nds.take ts.length).Nodup) (hnodup : m.β 2 e ≠ 0 → nds.Nodup)
+    (h : run (insertVerticesOnEdge m.n e nds ts) m = (.ok (), m')) :
+    ((ts.zip (nds.take ts.length)).map (fun x => (run (vertexId2 m.n x.2) m').1)).Nodup := by
+  have hinv := insertVertices_inv m m' e nds ts hwf he hlive hnodup h
+  obtain ⟨hwf', hres⟩ := C14_insertVertices_beta_structure m m' e nds ts hwf he hlive hfhnd hnodup h
+  obtain ⟨hc, hfree, _, hfh0, hsh0, _, _, _⟩ := insertVertices_ok_elim h
+  have hn : m'.n = m.n := hinv.n_eq
+  have hlt : ∀ x ∈ nds, x < m.n := fun x hx => ((hwf.toSized.okβ 0 x).1 (hfree x hx).1).2
+  have hfhlt : ∀ x ∈ nds.take ts.length, x < m.n ∧ x ≠ 0 :=
+    fun x hx => ⟨hlt x (List.mem_of_mem_take hx), hfh0 x hx⟩
+  have hfreeF : ∀ x ∈ nds.take ts.length, ∀ i, i < 3 → m.β i x = 0 :=
+    fun x hx i hi => free_β (hfree x (List.mem_of_mem_take hx)).2 i hi
+  have hlenF : (nds.take ts.length).length = ts.length := by rw [List.length_take]; omega
+  have h2 : m.β 2 e ≠ 0 → (nds.take ts.length).length = (nds.drop ts.length).length ∧ m.β 2 e < m.n ∧
+      ∀ x ∈ nds.drop ts.length, x < m.n ∧ x ≠ 0 := by
+    intro hh
+    refine ⟨by rw [List.length_take, List.length_drop]; omega, hwf.range 2 (by omega) e he.2.1, ?_⟩
+    exact fun x hx => ⟨hlt x (List.mem_of_mem_drop hx), hsh0 hh x hx⟩
+  -- the list of identifiers is the image of the first half
+  have hmap : (ts.zip (nds.take ts.length)).map (fun x => (run (vertexId2 m.n x.2) m').1)
+      = (nds.take ts.length).map (fun d => (run (vertexId2 m.n d) m').1) := by
+    have : (ts.zip (nds.take ts.length)).map (fun x => (run (vertexId2 m.n x.2) m').1)
+        = ((ts.zip (nds.take ts.length)).map Prod.snd).map (fun d => (run (vertexId2 m.n d) m').1) := by
+      rw [List.map_map]; rfl
+    rw [this, List.map_snd_zip (by omega)]
+  rw [hmap]
+  refine List.Nodup.map_on ?_ hfhnd
+  intro a ha b hb hab
+  obtain ⟨alt, a0⟩ := hfhlt a ha
+  obtain ⟨blt, b0⟩ := hfhlt b hb
+  have ra := (C03.C03_vertexId2_min hwf' a0 (by rw [hn]; exact alt)).1
+  have rb := (C03.C03_vertexId2_min hwf' b0 (by rw [hn]; exact blt)).1
+  rw [hn] at ra rb
+  simp only at hab
+  rw [ra, rb] at hab
+  simp only [Out.ok.injEq] at hab
+  have hreach := (C03.C03_same_id_iff_same_cell hwf' (pol := .vertex) trivial a0 (by rw [hn]; exact alt) b0
+    (by rw [hn]; exact blt)).1.1 hab
+  -- `a = fh[t]`
+  obtain ⟨t, ht, rfl⟩ := List.getElem_of_mem ha
+  have hgd : (nds.take ts.length).getD t 0 = (nds.take ts.length)[t] := by
+    rw [List.getD_eq_getElem?_getD, List.getElem?_eq_getElem ht]; rfl
+  rw [← hgd] at hreach
+  rcases new_vertex_darts m m' e _ _ hwf hwf' hn he.2.1 hfhlt hfreeF h2 hres t ht b hreach with c | c | ⟨he2, c⟩
+  · rw [c, hgd]
+  · exact absurd c b0
+  · -- `b` would be a second-half dart (or `β2 e`): impossible for a first-half dart
+    exfalso
+    obtain ⟨hl, _, _⟩ := h2 he2
+    have hnd := hnodup he2
+    rw [← List.take_append_drop ts.length nds] at hnd
+    have hdisj := (List.nodup_append.1 hnd).2.2
+    have hj : (nds.take ts.length).length - t = ((nds.take ts.length).length - t - 1) + 1 := by omega
+    rw [hj] at c
+    simp only [List.getD_cons_succ] at c
+    have hmemS : b ∈ nds.drop ts.length := by
+      rw [c]; exact getD_mem_of_lt (by omega)
+    exact hdisj b hb b hmemS rfl
+
+/-- **C14 (c), positions, unconditional form**: after a successful `insert_vertices_on_edge` the `i`-th new point
+    `v1 + (v2 - v1)·t_i` sits in the slot of the vertex identifier of the `i`-th new dart (computed on the result) and
+    no other slot of any storage has changed — `C14_new_vertex_position` with its hypothesis discharged -/
+theorem C14_new_vertex_position_full (m m' : Map Val) (e : Nat) (nds : List Nat) (ts : List Rat)
+    (hwf : WF 3 m) (he : C01.InUse m e)
+    (hlive : ∀ d ∈ nds, m.unused d = false)
+    (hfhnd : (nds.take ts.length).Nodup) (hnodup : m.β 2 e ≠ 0 → nds.Nodup)
+    (h : run (insertVerticesOnEdge m.n e nds ts) m = (.ok (), m')) :
+    ∃ vid1 vid2 v1 v2,
+      run (vertexId2 m.n e) m = (.ok vid1, m) ∧
+      run (vertexId2 m.n (if m.β 1 e ≠ 0 then m.β 1 e else m.β 2 e)) m = (.ok vid2, m) ∧
+      m.att 0 vid1 = some v1 ∧ m.att 0 vid2 = some v2 ∧
+      (∀ x ∈ ts.zip (nds.take ts.length), ∀ vid, (run (vertexId2 m.n x.2) m').1 = .ok vid →
+        m'.att 0 vid = some (placeVal v1 v2 (some x.1))) ∧
+      (∀ s d, (s ≠ 0 ∨ ∀ x ∈ ts.zip (nds.take ts.length), (run (vertexId2 m.n x.2) m').1 ≠ .ok d) →
+        m'.att s d = m.att s d) :=
+  C14_new_vertex_position h (C14_new_darts_distinct_vertices m m' e nds ts hwf he hlive hfhnd hnodup h)
+
 /-! ## non-vacuity -/
 
 /-- two-dart edge 1 ↔ 4 of `exMap` (dart 1 on the triangle 1-2-3), two vertices, spare darts 5, 6 | 7, 8 -/
@@ -749,5 +833,15 @@ def exRes2 : Map Val := (run (insertVerticesOnEdge exMap2.n 1 [5, 6, 7, 8] [1/4,
 
 example : [exRes2.β 1 1, exRes2.β 1 5, exRes2.β 1 6, exRes2.β 1 4, exRes2.β 1 7, exRes2.β 1 8,
     exRes2.β 2 4, exRes2.β 2 7, exRes2.β 2 8, exRes2.β 2 1] = [5, 6, 2, 7, 8, 0, 6, 5, 1, 8] := by decide +kernel
+
+example : ((([1/4, 1/2] : List Rat).zip [5, 6]).map (fun x => (run (vertexId2 exMap2.n x.2) exRes2).1)).Nodup :=
+  C14_new_darts_distinct_vertices exMap2 _ 1 [5, 6, 7, 8] [1/4, 1/2] (by decide +kernel) (by decide +kernel)
+    (by decide +kernel) (by decide) (by decide +kernel) (ok_of_fst (by decide +kernel))
+
+/-- the vertices of the new darts 5, 6 are {5, 8} and {6, 7}; their points sit at the ids 5 and 6 -/
+example : [(run (vertexId2 exMap2.n 5) exRes2).1, (run (vertexId2 exMap2.n 8) exRes2).1,
+    (run (vertexId2 exMap2.n 6) exRes2).1, (run (vertexId2 exMap2.n 7) exRes2).1] = [.ok 5, .ok 5, .ok 6, .ok 6] := by
+  decide +kernel
+example : [exRes2.att 0 5, exRes2.att 0 6] = [some (.pt 1 0 0), some (.pt 2 0 0)] := by decide +kernel
 
 end HC.C14
